@@ -100,8 +100,10 @@ Proof. exact no_expiry_span. Qed.
 Print Assumptions C05_no_expiry_within_60s.
 
 (* ... and what that loop delivers as complete is what the message-level machine of the theorems
-   above completes (same state afterwards): C05_exact / C05_never_early speak about parse *)
-Theorem C05_parse_is_run : forall now ms s,
+   above completes (same state afterwards), from any state on which the expiry pass at the
+   beginning of the read has already acted (parse runs the loop on delete_timeout now (state)):
+   C05_exact / C05_never_early speak about the content and number of what parse delivers *)
+Theorem C05_parse_is_run : forall now ms s, delete_timeout now s = s ->
   fst (cp_loop now s ms) = fst (run s (map (fun rm => (now, EvMsg (snd rm))) ms)) /\
   completed_msgs (snd (cp_loop now s ms)) = completed_outs (snd (run s (map (fun rm => (now, EvMsg (snd rm))) ms))).
 Proof. exact cp_loop_is_run. Qed.
